@@ -83,6 +83,11 @@ fn digits(min: usize, max: usize) -> BoxedStrategy<Vec<u8>> {
     vec(0u8..10, min..=max).boxed()
 }
 
+/// digit strings whose length is drawn around 2^k up to 300 (counters and buffers of the numeral parser)
+fn long_digits() -> BoxedStrategy<Vec<u8>> {
+    crate::gen::boundary_len(300).prop_flat_map(|n| vec(0u8..10, n.max(1))).boxed()
+}
+
 fn nz_digits(min: usize, max: usize) -> BoxedStrategy<Vec<u8>> {
     (1u8..10, vec(0u8..10, min.saturating_sub(1)..=max.saturating_sub(1))).prop_map(|(a, mut v)| {
         v.insert(0, a);
@@ -92,10 +97,10 @@ fn nz_digits(min: usize, max: usize) -> BoxedStrategy<Vec<u8>> {
 }
 
 fn num() -> BoxedStrategy<Num> {
-    let plain = (digits(1, 30), prop::option::weighted(0.3, digits(1, 8)), 0u8..3, any::<u32>()).prop_map(|(digits, frac, style, sel)| Num::Plain { digits, frac, style, sel });
+    let plain = (prop_oneof![12 => digits(1, 30), 1 => long_digits()], prop::option::weighted(0.3, prop_oneof![12 => digits(1, 8), 1 => long_digits()]), 0u8..3, any::<u32>()).prop_map(|(digits, frac, style, sel)| Num::Plain { digits, frac, style, sel });
     let comma = (
         prop_oneof![4 => nz_digits(1, 3), 1 => (vec(0u8..10, 0..=1), nz_digits(1, 2)).prop_map(|(mut z, v)| { z.iter_mut().for_each(|x| *x = 0); z.extend(v); z.truncate(3); z })],
-        vec((0u8..10, 0u8..10, 0u8..10).prop_map(|(a, b, c)| [a, b, c]), 1..6),
+        prop_oneof![15 => vec((0u8..10, 0u8..10, 0u8..10).prop_map(|(a, b, c)| [a, b, c]), 1..6), 1 => vec((0u8..10, 0u8..10, 0u8..10).prop_map(|(a, b, c)| [a, b, c]), 20..90)],
         prop::option::weighted(0.25, digits(1, 6)),
     )
         .prop_map(|(first, groups, frac)| Num::Comma { first, groups, frac });
